@@ -208,3 +208,159 @@ func verifCanary(label string, cond bool) {}
 //@   loop 0 invariant blockSize == rsa.keySize(&c.PrivateKey.PublicKey)
 //@   loop 0 invariant arr(plaintext) == 0 || fresh(plaintext)
 //@   loop 0 decreases srcRemaining
+
+// ---------------------------------------------------------------------------
+// C14: symmetric keys follow Part 6 (6.7.5) and are direction-separated.
+//
+// P_SHA output is produced by generateKeys into one fresh byte stream per call; the ghost functions
+// psHash/psSecret/psSeed/psBase describe that stream (keyed by its backing array): which hash, which
+// secret, which seed, and where it starts. generateKeys itself is verified for safety, termination and
+// the layout of the three keys inside the stream; THAT the stream is P_SHA(secret, seed) -- the byte
+// content computed by the HMAC loop -- is the assumed part (variant contract @spec).
+// The five constructors are then proved against the Part 6 table written here: keys for SENDING are
+// derived with the REMOTE nonce as secret and the LOCAL nonce as seed, keys for RECEIVING the other way
+// round, signing key at offset 0, encryption key behind it, IV behind that, with the policy's lengths.
+// ---------------------------------------------------------------------------
+//@ ufunc psHash(unsafe.Pointer) crypto.Hash
+//@ ufunc psSecret(unsafe.Pointer) unsafe.Pointer
+//@ ufunc psSecretLen(unsafe.Pointer) int
+//@ ufunc psSeed(unsafe.Pointer) unsafe.Pointer
+//@ ufunc psSeedLen(unsafe.Pointer) int
+//@ ufunc psBase(unsafe.Pointer) int
+//@ ufunc digestLen(crypto.Hash) int
+
+// HMAC over a hash function (crypto/hmac, external): a digest of the hash's length, never an error
+// (hash.Hash.Write never fails)
+//@ func (*HMAC).Signature
+//@   props C14
+//@   assumed
+//@   requires s != nil
+//@   assigns nothing
+//@   ensures result1 == nil && len(result0) == digestLen(s.Hash) && fresh(result0)
+//@   ensures (s.Hash == 3 ==> digestLen(s.Hash) == 20) && (s.Hash == 5 ==> digestLen(s.Hash) == 32)
+
+//@ func generateKeys
+//@   props C14
+//@   requires hmac != nil && (hmac.Hash == 3 || hmac.Hash == 5)
+//@   requires 0 <= signingLength && signingLength <= 64 && 0 <= encryptingLength && encryptingLength <= 64 && 0 <= encryptingBlockSize && encryptingBlockSize <= 64
+//@   assigns nothing
+//@   ensures [C14:layout] result != nil && fresh(result) && len(result.signing) == signingLength && len(result.encryption) == encryptingLength && len(result.iv) == encryptingBlockSize &&
+//@           arr(result.encryption) == arr(result.signing) && arr(result.iv) == arr(result.signing) &&
+//@           off(result.encryption) == off(result.signing) + signingLength && off(result.iv) == off(result.signing) + signingLength + encryptingLength
+//@   ensures [C14:own-stream] arr(result.signing) == 0 || fresh(result.signing)
+//@   loop 0 invariant 0 <= len(p) && (arr(p) == 0 || fresh(p)) && (arr(a) == 0 || fresh(a)) && len(a) == digestLen(hmac.Hash) && hmac != nil
+//@   loop 0 decreases signingLength + encryptingLength + encryptingBlockSize - len(p)
+
+// what the HMAC loop computes (assumed): the stream is P_SHA with this hash, this secret, this seed
+//@ func generateKeys@spec
+//@   props C14
+//@   assumed
+//@   assigns nothing
+//@   ensures result != nil && fresh(result) && fresh(result.signing) && len(result.signing) == signingLength && len(result.encryption) == encryptingLength && len(result.iv) == encryptingBlockSize &&
+//@           arr(result.encryption) == arr(result.signing) && arr(result.iv) == arr(result.signing) &&
+//@           off(result.encryption) == off(result.signing) + signingLength && off(result.iv) == off(result.signing) + signingLength + encryptingLength
+//@   ensures psHash(ref(result.signing)) == hmac.Hash && psSecret(ref(result.signing)) == ref(hmac.Secret) && psSecretLen(ref(result.signing)) == len(hmac.Secret) &&
+//@           psSeed(ref(result.signing)) == ref(seed) && psSeedLen(ref(result.signing)) == len(seed) && psBase(ref(result.signing)) == off(result.signing)
+
+// key(k, h, secret, seed, at, n): byte string k is the n bytes at offset `at` of P_SHA_h(secret, seed)
+//@ pred derived(k []byte, h crypto.Hash, secret []byte, seed []byte, at int, n int) :=
+//@     psHash(ref(k)) == h && psSecret(ref(k)) == ref(secret) && psSecretLen(ref(k)) == len(secret) &&
+//@     psSeed(ref(k)) == ref(seed) && psSeedLen(ref(k)) == len(seed) && off(k) == psBase(ref(k)) + at && len(k) == n
+
+//@ func newBasic128Rsa15Symmetric
+//@   props C14
+//@   use generateKeys@spec
+//@   assigns nothing
+//@   ensures [C14:shape] err == nil && result != nil && fresh(result) && result.blockSize == 16 && result.plainttextBlockSize == 16 &&
+//@           result.signatureLength == 20 && result.remoteSignatureLength == 20
+//@   ensures [C14:send-sign] typeis(result.signature, *HMAC) && dyn(result.signature, *HMAC).Hash == 3 &&
+//@           derived(dyn(result.signature, *HMAC).Secret, 3, remoteNonce, localNonce, 0, 16)
+//@   ensures [C14:send-encrypt] typeis(result.encrypt, *AES) && dyn(result.encrypt, *AES).KeyLength == 16*8 &&
+//@           derived(dyn(result.encrypt, *AES).Secret, 3, remoteNonce, localNonce, 16, 16) &&
+//@           derived(dyn(result.encrypt, *AES).IV, 3, remoteNonce, localNonce, 16+16, 16)
+//@   ensures [C14:receive-verify] typeis(result.verifySignature, *HMAC) && dyn(result.verifySignature, *HMAC).Hash == 3 &&
+//@           derived(dyn(result.verifySignature, *HMAC).Secret, 3, localNonce, remoteNonce, 0, 16)
+//@   ensures [C14:receive-decrypt] typeis(result.decrypt, *AES) && dyn(result.decrypt, *AES).KeyLength == 16*8 &&
+//@           derived(dyn(result.decrypt, *AES).Secret, 3, localNonce, remoteNonce, 16, 16) &&
+//@           derived(dyn(result.decrypt, *AES).IV, 3, localNonce, remoteNonce, 16+16, 16)
+
+//@ func newBasic256Symmetric
+//@   props C14
+//@   use generateKeys@spec
+//@   assigns nothing
+//@   ensures [C14:shape] err == nil && result != nil && fresh(result) && result.blockSize == 16 && result.plainttextBlockSize == 16 &&
+//@           result.signatureLength == 20 && result.remoteSignatureLength == 20
+//@   ensures [C14:send-sign] typeis(result.signature, *HMAC) && dyn(result.signature, *HMAC).Hash == 3 &&
+//@           derived(dyn(result.signature, *HMAC).Secret, 3, remoteNonce, localNonce, 0, 24)
+//@   ensures [C14:send-encrypt] typeis(result.encrypt, *AES) && dyn(result.encrypt, *AES).KeyLength == 32*8 &&
+//@           derived(dyn(result.encrypt, *AES).Secret, 3, remoteNonce, localNonce, 24, 32) &&
+//@           derived(dyn(result.encrypt, *AES).IV, 3, remoteNonce, localNonce, 24+32, 16)
+//@   ensures [C14:receive-verify] typeis(result.verifySignature, *HMAC) && dyn(result.verifySignature, *HMAC).Hash == 3 &&
+//@           derived(dyn(result.verifySignature, *HMAC).Secret, 3, localNonce, remoteNonce, 0, 24)
+//@   ensures [C14:receive-decrypt] typeis(result.decrypt, *AES) && dyn(result.decrypt, *AES).KeyLength == 32*8 &&
+//@           derived(dyn(result.decrypt, *AES).Secret, 3, localNonce, remoteNonce, 24, 32) &&
+//@           derived(dyn(result.decrypt, *AES).IV, 3, localNonce, remoteNonce, 24+32, 16)
+
+//@ func newBasic256Rsa256Symmetric
+//@   props C14
+//@   use generateKeys@spec
+//@   assigns nothing
+//@   ensures [C14:shape] err == nil && result != nil && fresh(result) && result.blockSize == 16 && result.plainttextBlockSize == 16 &&
+//@           result.signatureLength == 32 && result.remoteSignatureLength == 32
+//@   ensures [C14:send-sign] typeis(result.signature, *HMAC) && dyn(result.signature, *HMAC).Hash == 5 &&
+//@           derived(dyn(result.signature, *HMAC).Secret, 5, remoteNonce, localNonce, 0, 32)
+//@   ensures [C14:send-encrypt] typeis(result.encrypt, *AES) && dyn(result.encrypt, *AES).KeyLength == 32*8 &&
+//@           derived(dyn(result.encrypt, *AES).Secret, 5, remoteNonce, localNonce, 32, 32) &&
+//@           derived(dyn(result.encrypt, *AES).IV, 5, remoteNonce, localNonce, 32+32, 16)
+//@   ensures [C14:receive-verify] typeis(result.verifySignature, *HMAC) && dyn(result.verifySignature, *HMAC).Hash == 5 &&
+//@           derived(dyn(result.verifySignature, *HMAC).Secret, 5, localNonce, remoteNonce, 0, 32)
+//@   ensures [C14:receive-decrypt] typeis(result.decrypt, *AES) && dyn(result.decrypt, *AES).KeyLength == 32*8 &&
+//@           derived(dyn(result.decrypt, *AES).Secret, 5, localNonce, remoteNonce, 32, 32) &&
+//@           derived(dyn(result.decrypt, *AES).IV, 5, localNonce, remoteNonce, 32+32, 16)
+
+//@ func newAes128Sha256RsaOaepSymmetric
+//@   props C14
+//@   use generateKeys@spec
+//@   assigns nothing
+//@   ensures [C14:shape] err == nil && result != nil && fresh(result) && result.blockSize == 16 && result.plainttextBlockSize == 16 &&
+//@           result.signatureLength == 32 && result.remoteSignatureLength == 32
+//@   ensures [C14:send-sign] typeis(result.signature, *HMAC) && dyn(result.signature, *HMAC).Hash == 5 &&
+//@           derived(dyn(result.signature, *HMAC).Secret, 5, remoteNonce, localNonce, 0, 32)
+//@   ensures [C14:send-encrypt] typeis(result.encrypt, *AES) && dyn(result.encrypt, *AES).KeyLength == 16*8 &&
+//@           derived(dyn(result.encrypt, *AES).Secret, 5, remoteNonce, localNonce, 32, 16) &&
+//@           derived(dyn(result.encrypt, *AES).IV, 5, remoteNonce, localNonce, 32+16, 16)
+//@   ensures [C14:receive-verify] typeis(result.verifySignature, *HMAC) && dyn(result.verifySignature, *HMAC).Hash == 5 &&
+//@           derived(dyn(result.verifySignature, *HMAC).Secret, 5, localNonce, remoteNonce, 0, 32)
+//@   ensures [C14:receive-decrypt] typeis(result.decrypt, *AES) && dyn(result.decrypt, *AES).KeyLength == 16*8 &&
+//@           derived(dyn(result.decrypt, *AES).Secret, 5, localNonce, remoteNonce, 32, 16) &&
+//@           derived(dyn(result.decrypt, *AES).IV, 5, localNonce, remoteNonce, 32+16, 16)
+
+//@ func newAes256Sha256RsaPssSymmetric
+//@   props C14
+//@   use generateKeys@spec
+//@   assigns nothing
+//@   ensures [C14:shape] err == nil && result != nil && fresh(result) && result.blockSize == 16 && result.plainttextBlockSize == 16 &&
+//@           result.signatureLength == 32 && result.remoteSignatureLength == 32
+//@   ensures [C14:send-sign] typeis(result.signature, *HMAC) && dyn(result.signature, *HMAC).Hash == 5 &&
+//@           derived(dyn(result.signature, *HMAC).Secret, 5, remoteNonce, localNonce, 0, 32)
+//@   ensures [C14:send-encrypt] typeis(result.encrypt, *AES) && dyn(result.encrypt, *AES).KeyLength == 32*8 &&
+//@           derived(dyn(result.encrypt, *AES).Secret, 5, remoteNonce, localNonce, 32, 32) &&
+//@           derived(dyn(result.encrypt, *AES).IV, 5, remoteNonce, localNonce, 32+32, 16)
+//@   ensures [C14:receive-verify] typeis(result.verifySignature, *HMAC) && dyn(result.verifySignature, *HMAC).Hash == 5 &&
+//@           derived(dyn(result.verifySignature, *HMAC).Secret, 5, localNonce, remoteNonce, 0, 32)
+//@   ensures [C14:receive-decrypt] typeis(result.decrypt, *AES) && dyn(result.decrypt, *AES).KeyLength == 32*8 &&
+//@           derived(dyn(result.decrypt, *AES).Secret, 5, localNonce, remoteNonce, 32, 32) &&
+//@           derived(dyn(result.decrypt, *AES).IV, 5, localNonce, remoteNonce, 32+32, 16)
+
+// AES-CBC: every call starts from the derived IV -- the cipher object keeps no state between calls
+// (frame: nothing of the AES value or anything else is written) -- and the output has the input's length.
+//@ func (*AES).Encrypt
+//@   props C14 C07
+//@   requires a != nil && 0 <= a.KeyLength && a.KeyLength <= 512
+//@   assigns nothing
+//@   ensures [C14:length] err == nil ==> len(result0) == len(src) && (len(src) == 0 || fresh(result0)) && len(src) % 16 == 0
+//@ func (*AES).Decrypt
+//@   props C14 C07
+//@   requires a != nil && 0 <= a.KeyLength && a.KeyLength <= 512
+//@   assigns nothing
+//@   ensures [C14:length] err == nil ==> len(result0) == len(src) && fresh(result0) && len(src) % 16 == 0 && len(src) >= 16
